@@ -4,6 +4,8 @@ import Tahoe.Base.LemmasMerkleClosed
 import Tahoe.Base.LemmasMerkleBuild
 import Tahoe.Base.LemmasMerkleStray
 import Tahoe.Base.LemmasMerkleMinimal
+import Tahoe.Base.LemmasMerkleGenuine
+import Tahoe.Base.LemmasMerkleHistory
 /-! C35 — Merkle hash trees accept only genuine leaves (hashtree.py `IncompleteHashTree.set_hashes`).
 
 ## Coverage of the statement (properties.jsonl C35)
@@ -12,17 +14,19 @@ import Tahoe.Base.LemmasMerkleMinimal
 |---|---|
 | "a partially populated hash tree seeded with a trusted root accepts a leaf value only if it equals that leaf in the tree that produced the root" | `sound`, `accepted_leaf_genuine` (natural keys); `sound_any_batch` (arbitrary Python-int keys); "the tree that produced the root" = any `Genuine` tree, and `hashtree_is_genuine` shows `HashTree(L)` is one (padding included) |
 | "whatever auxiliary hashes an adversary supplies" | the batch is universally quantified in all of the above: any values of the abstract hash type (any length — `pair` is only assumed injective), any node numbers incl. stray / negative / too large and any dict order (`sound_any_batch`, `rollback_any_batch`); hypothesis `PairInjective` (collision-freeness) |
-| "it always accepts the genuine hashes it asked for" | `needed_hashes_accepted` (exactly `needed_hashes(leaf)` answered from `T` + the genuine leaf, model function `validateLeaf`), `needed_hashes_accepted_hashtree` (every list of leaves of every length, every leaf slot incl. padding), `complete` / `complete_int_keys` (any genuine superset on the chain); the tree-shape hypotheses `Closed` are invariants: `closed_preserved`, `new_tree_closed`; that nothing less would do: `needed_hashes_minimal` (with `sib_closed_preserved`, `new_tree_sib_closed`) |
+| "it always accepts the genuine hashes it asked for" | `needed_hashes_accepted` (exactly `needed_hashes(leaf)` answered from `T` + the genuine leaf, model function `validateLeaf`), `needed_hashes_accepted_hashtree` (every list of leaves of every length, every leaf slot incl. padding), `complete` / `complete_int_keys` (any genuine superset on the chain), `genuine_batch_never_refuted` (genuine values anywhere, on or off the chain: accepted or NotEnoughHashesError, never BadHashError / IndexError); the tree-shape hypotheses `Closed` are invariants: `closed_preserved`, `new_tree_closed`; that nothing less would do: `needed_hashes_minimal` (with `sib_closed_preserved`, `new_tree_sib_closed`) |
+| the quantifier "histories" | `history_invariant`: along any history of calls (arbitrary int-key batches, accepted or rejected, a pop order per call; model function `runBatches`, which is what the driver runs) the tree keeps its size and root and equals `T` wherever populated |
 | "in any validation order" | every theorem is for an arbitrary `pick` (the `set.pop()` oracle); `order_irrelevant`, `order_irrelevant_int_keys`: accept/reject and the accepted list do not depend on it |
-| "and leaves its state unchanged when it rejects an input" | `rollback` (natural keys, per exception class), `rollback_any_batch` (arbitrary int keys: every batch that is not accepted) |
+| "and leaves its state unchanged when it rejects an input" | `rollback` (natural keys, per exception class), `rollback_any_batch` / `every_exception_exit_restores` (arbitrary int keys: every call that does not return normally ends in one of the named exceptions and restores the list); `exits_are_named`: the model has no other exit, and `parent_level_assertion_never_fires` discharges the one `assert` inside the `try:`. An exception of any *other* type out of the real `set_hashes` (e.g. from building an error message) is therefore a correspondence disagreement; the monitor demands the tree unchanged after any exception type (corpus cases for seeds C35-c, C35-e) |
 | the code as it was before the repair | `sound_counterexample_falsy_root`, `rollback_counterexample_falsy_leaf`, `rollback_counterexample_index_error` (`Cfg.asIs`) |
 
-Not covered by a theorem (correspondence / monitor only): that `pair_hash` / `empty_leaf_hash` are the SHA-256d
-tagged hashes and are collision-free (hypothesis); exceptions other than BadHashError / NotEnoughHashesError /
-IndexError (the monitor requires the tree unchanged after any exception type); which of the three exception
-classes is raised for a batch with a red-dotted negative key (order dependent, left open as
-`BatchOutcome.unvalidatable`); `complete`-type statements for batches that also carry genuine values *off* the
-chain (they may legitimately be rejected with NotEnoughHashesError).
+Not covered by a theorem: that `pair_hash` / `empty_leaf_hash` are the SHA-256d tagged hashes and are
+collision-free (hypothesis `PairInjective`; correspondence runs the real hashes); the text of the exception
+messages (`_name_hash`, base32) — not modelled, an exception raised there is a correspondence disagreement and a
+monitor violation; which of the three exception classes is raised for a batch with a red-dotted negative key
+(order dependent, left open as `BatchOutcome.unvalidatable`; rollback is proved for all of them); exactly when a
+genuine batch with values *off* the chain is accepted rather than found insufficient (only the dichotomy
+`genuine_batch_never_refuted` is proved).
 
 Vocabulary (Tahoe/Base/Merkle.lean): `Genuine ops T` — `T` is a fully populated Merkle tree; `Agree t T` — the
 partial tree `t` equals `T` wherever populated; `PairInjective ops` — the pair hash is collision-free;
@@ -117,6 +121,63 @@ theorem hashtree_is_genuine (ops : HashOps H) (L : List H) :
     (∀ k, L.length ≤ k → k < roundupPow2 L.length →
       Base.Merkle.get (build ops L) (firstLeafNum L.length + k) = some (ops.emptyLeaf k)) :=
   ⟨build_genuine ops L, build_leaf ops L, build_padding ops L⟩
+
+/-! ### the exits of `set_hashes`, and genuine values are never refuted -/
+
+/-- **exits_are_named**: whatever the batch, the model of `set_hashes` ends in `ok`, BadHashError,
+    NotEnoughHashesError or IndexError — never in the `internal` exit that stands for the remaining raise sites of
+    the code (`pair_hash(None, …)` → TypeError, an exhausted loop). So an exception of any other type coming out of
+    the real `set_hashes` is a correspondence disagreement, not a modelled behaviour. -/
+theorem exits_are_named (ops : HashOps H) (cfg : Cfg) (pick : List Nat → Nat) (first : Nat) (t : Tree H)
+    (hashes leaves : List (Nat × H)) :
+    (setHashes ops cfg pick first t hashes leaves).1 = .ok ∨
+    (setHashes ops cfg pick first t hashes leaves).1 = .badHash ∨
+    (setHashes ops cfg pick first t hashes leaves).1 = .notEnough ∨
+    (setHashes ops cfg pick first t hashes leaves).1 = .indexError :=
+  setHashes_outcome_named ops cfg pick first t hashes leaves
+
+/-- **every exit restores the tree** (int keys, the whole input domain): a call that does not return normally
+    ends in one of the named exceptions (or the order-dependent choice among them for a red-dotted negative key)
+    and the list is exactly the input list. -/
+theorem every_exception_exit_restores (ops : HashOps H) (cfg : Cfg) (hstrict : StrictPresence ops cfg)
+    (hcatch : cfg.catchIndex = true) (pick : List Nat → Nat) (first : Nat) (t : Tree H)
+    (hashes leaves : List (Int × H)) (o : BatchOutcome) (t' : Tree H)
+    (h : setHashesZ ops cfg pick first t hashes leaves = (o, t')) (hne : o ≠ .ok) :
+    (o = .unvalidatable ∨ o = .err .badHash ∨ o = .err .notEnough ∨ o = .err .indexError) ∧ t' = t := by
+  refine ⟨?_, setHashesZ_rollback hstrict hcatch pick first t hashes leaves h hne⟩
+  have := setHashesZ_outcome_named ops cfg pick first t hashes leaves
+  rw [h] at this
+  rcases this with e | e
+  · exact absurd e hne
+  · exact e
+
+/-- the code's `assert parent_level == level-1` (an AssertionError would bypass the rollback) can never fire -/
+theorem parent_level_assertion_never_fires (i : Nat) (hi : i ≠ 0) : depthOf (parent i) = depthOf i - 1 := by
+  have := depthOf_parent hi; omega
+
+/-- **genuine_batch_never_refuted**: a batch all of whose values are the genuine tree's (any node numbers of the
+    tree, on or off any chain, any number of leaves), given to a tree that agrees with `T`, is never answered with
+    BadHashError or IndexError: it is accepted — and the tree still agrees with `T` — or found insufficient
+    (NotEnoughHashesError). No collision-freeness, no root and no shape hypothesis is needed. -/
+theorem genuine_batch_never_refuted (ops : HashOps H) (cfg : Cfg) (T t : Tree H) (hT : Genuine ops T)
+    (hlen : t.length = T.length) (hagree : Agree t T) (pick : List Nat → Nat) (first : Nat)
+    (hashes leaves : List (Nat × H))
+    (hh : ∀ i w, (i, w) ∈ hashes → Base.Merkle.get T i = some w)
+    (hl : ∀ k v, (k, v) ∈ leaves → Base.Merkle.get T (first + k) = some v) :
+    ((setHashes ops cfg pick first t hashes leaves).1 = .ok ∧
+        Agree (setHashes ops cfg pick first t hashes leaves).2 T) ∨
+      (setHashes ops cfg pick first t hashes leaves).1 = .notEnough :=
+  setHashes_genuine ops cfg hT hlen hagree pick first hashes leaves hh hl
+
+/-- genuine values off the chain: leaf 0 of a 4-leaf tree with the genuine value of the unrelated node 5 added is
+    found insufficient (node 5 has no sibling), with node 5 *and* its sibling 6 it is accepted -/
+example :
+    let T : Tree Sym := build symOps [Sym.atom 0, Sym.atom 1, Sym.atom 2, Sym.atom 3]
+    let t : Tree Sym := Base.Merkle.get T 0 :: List.replicate 6 none
+    (setHashes symOps Cfg.repaired (fun _ => 0) 3 t
+      [(4, Sym.atom 1), (2, Sym.pair (Sym.atom 2) (Sym.atom 3)), (5, Sym.atom 2)] [(0, Sym.atom 0)]).1 = .notEnough ∧
+    setHashes symOps Cfg.repaired (fun _ => 0) 3 t
+      [(4, Sym.atom 1), (5, Sym.atom 2), (6, Sym.atom 3)] [(0, Sym.atom 0)] = (.ok, T) := by decide
 
 /-! ### `needed_hashes`: what the tree asks for is enough, and nothing less is -/
 
@@ -275,6 +336,39 @@ example :
     setHashesZ symOps Cfg.repaired (fun _ => 0) 1 t [(1, Sym.atom 1001)] [(-2, Sym.atom 5)] = (.unvalidatable, t) ∧
     setHashesZ symOps Cfg.repaired (fun _ => 0) 1 t [(-3, Sym.pair (Sym.atom 0) (Sym.atom 1))] [] = (.ok, t) := by
   decide
+
+/-! ### whole histories -/
+
+/-- **history_invariant**: take a tree of the right size that holds the trusted root and agrees with `T`
+    (`HInv`; e.g. a fresh `IncompleteHashTree` after `set_hashes({0: root})`) and run ANY history of `set_hashes`
+    calls on it — arbitrary int-key batches, accepted or rejected (the caller survives the exceptions), a pop order
+    of its own for every call (`runBatches`).  After every call the tree still has its size, still holds the root
+    and equals `T` wherever it is populated: in particular every leaf it ever holds is the genuine leaf. -/
+theorem history_invariant (ops : HashOps H) (cfg : Cfg) (hstrict : StrictPresence ops cfg)
+    (hcatch : cfg.catchIndex = true) (hinj : PairInjective ops) (T : Tree H) (hT : Genuine ops T)
+    (first : Nat) (t : Tree H) (hinv : HInv T t) (calls : List (Batch H)) :
+    ∀ r ∈ runBatches ops cfg first t calls, HInv T r.2 :=
+  runBatches_hinv hstrict hcatch hinj hT first calls t hinv
+
+/-- a history on a two-leaf tree: forged node + stray key (rejected), the forged leaf alone (rejected), the
+    genuine request (accepted); the list after each call -/
+example :
+    let root := Sym.pair (Sym.atom 0) (Sym.atom 1)
+    let t : Tree Sym := [some root, none, none]
+    runBatches symOps Cfg.repaired 1 t
+      [{ pick := fun _ => 0, hashes := [(1, Sym.atom 1001), (-1, Sym.atom 1396)], leaves := [] },
+       { pick := fun _ => 0, hashes := [], leaves := [(0, Sym.atom 1001)] },
+       { pick := fun _ => 0, hashes := [(2, Sym.atom 1)], leaves := [(0, Sym.atom 0)] }] =
+      [(.unvalidatable, t), (.err .notEnough, t), (.ok, [some root, some (Sym.atom 0), some (Sym.atom 1)])] ∧
+    HInv (build symOps [Sym.atom 0, Sym.atom 1]) t := by
+  refine ⟨by decide, by decide, ?_, by decide⟩
+  intro j h hj
+  match j with
+  | 0 => have : h = Sym.pair (Sym.atom 0) (Sym.atom 1) := by simpa [Base.Merkle.get] using hj.symm
+         subst this; decide
+  | 1 => simp [Base.Merkle.get] at hj
+  | 2 => simp [Base.Merkle.get] at hj
+  | j + 3 => simp [Base.Merkle.get] at hj
 
 /-! ### the hypotheses are satisfiable, and a concrete instance -/
 
